@@ -242,7 +242,7 @@ func namespaceIsEqual(a Entry, b Entry) bool {
 		// if schema is nil, we're in a key level in the tree, so search up the chain for
 		// the first ancestor that contains a schema.
 		if schema == nil {
-			ancest, _ := a.GetFirstAncestorWithSchema()
+			ancest, _ := e.GetFirstAncestorWithSchema()
 			schema = ancest.GetSchema()
 		}
 		// add the namespace to the array
@@ -275,9 +275,13 @@ func xmlAddKeyElements(s Entry, parent *etree.Element) {
 		// skip if the element already exists
 		existingElem := parent.SelectElement(schemaKeys[i])
 		if existingElem == nil {
-			// and finally we create the patheleme key attributes
-			parent.CreateElement(schemaKeys[i]).SetText(treeElem.PathName())
-			treeElem = treeElem.GetParent()
+			// and finally we create the patheleme key attributes.
+			// The keys have to be the first elements of the list entry, in the order of the key statement.
+			// Counting down and inserting at the front yields exactly that order.
+			keyElem := etree.NewElement(schemaKeys[i])
+			keyElem.SetText(treeElem.PathName())
+			parent.InsertChildAt(0, keyElem)
 		}
+		treeElem = treeElem.GetParent()
 	}
 }
